@@ -72,8 +72,36 @@ func oracle(p geom.Point, polys []geom.Polygon) exact.Status {
 	return exact.PointInRings(gen.EP(p), rings, 3)
 }
 
+// The grid is centred on the origin ({-2,-1.5,..,2}^2) so that zero ordinates occur in the
+// middle of figures; a zero is spelled -0 half of the time (it is the same number).
+func gridOrd(r *gen.R) float64 {
+	v := float64(r.Intn(9))/2 - 2
+	if v == 0 && r.Bool() {
+		return math.Copysign(0, -1)
+	}
+	return v
+}
+
 func gridPt(r *gen.R) geom.Point {
-	return geom.Point{X: float64(r.Intn(9)) / 2, Y: float64(r.Intn(9)) / 2}
+	return geom.Point{X: gridOrd(r), Y: gridOrd(r)}
+}
+
+// withNegZero appends, for every point with a zero ordinate, its spellings with -0.
+func withNegZero(pts []geom.Point) []geom.Point {
+	nz := math.Copysign(0, -1)
+	o := append([]geom.Point{}, pts...)
+	for _, p := range pts {
+		if p.X == 0 {
+			o = append(o, geom.Point{X: nz, Y: p.Y})
+		}
+		if p.Y == 0 {
+			o = append(o, geom.Point{X: p.X, Y: nz})
+		}
+		if p.X == 0 && p.Y == 0 {
+			o = append(o, geom.Point{X: nz, Y: nz})
+		}
+	}
+	return o
 }
 
 func gridRing(r *gen.R) geom.Path {
@@ -145,10 +173,10 @@ var allGrid = func() []geom.Point {
 	var o []geom.Point
 	for i := 0; i <= 8; i++ {
 		for j := 0; j <= 8; j++ {
-			o = append(o, geom.Point{X: float64(i) / 2, Y: float64(j) / 2})
+			o = append(o, geom.Point{X: float64(i)/2 - 2, Y: float64(j)/2 - 2})
 		}
 	}
-	return o
+	return withNegZero(o)
 }()
 
 func coverage(c *core.Ctx, polys []geom.Polygon) {
@@ -485,15 +513,15 @@ var halfGrid = func() []geom.Point {
 	var o []geom.Point
 	for i := 0; i <= 6; i++ {
 		for j := 0; j <= 6; j++ {
-			o = append(o, geom.Point{X: float64(i) / 2, Y: float64(j) / 2})
+			o = append(o, geom.Point{X: float64(i)/2 - 1, Y: float64(j)/2 - 1})
 		}
 	}
-	return o
+	return withNegZero(o)
 }()
 
 func runEnum(c *core.Ctx, idx int) {
 	var ring geom.Path
-	at := func(k int) geom.Point { return geom.Point{X: float64(k % 4), Y: float64(k / 4)} }
+	at := func(k int) geom.Point { return geom.Point{X: float64(k%4) - 1, Y: float64(k/4) - 1} }
 	if idx < 4096 {
 		ring = geom.Path{at(idx % 16), at(idx / 16 % 16), at(idx / 256 % 16)}
 	} else {
